@@ -283,8 +283,31 @@ func simSelfTest(w *World) {
 	} else {
 		bad("atomic check-then-act: %d goroutines got through", n)
 	}
-	if done != 6 {
-		bad("self-test goroutines finished: %d of 6", done)
+	// 6. time.AfterFunc (rule R8): the callback is a simulated goroutine started at the timer's instant; Stop and Reset
+	// are the real timer's
+	var mu simsync.Mutex
+	var firedAt []time.Duration
+	step("afterfunc", func() {
+		t0 := time.Now()
+		note := func() { mu.Lock(); firedAt = append(firedAt, time.Since(t0)); mu.Unlock() }
+		a := simrt.AfterFunc(50*time.Millisecond, note)
+		b := simrt.AfterFunc(70*time.Millisecond, note)
+		simrt.AfterFunc(0, note)
+		if !b.Stop() {
+			bad("AfterFunc: Stop of a pending timer returned false")
+		}
+		simrt.Sleep(60 * time.Millisecond)
+		a.Reset(20 * time.Millisecond)
+		simrt.Sleep(30 * time.Millisecond)
+		mu.Lock()
+		if fmt.Sprint(firedAt) != "[0s 50ms 80ms]" {
+			bad("AfterFunc callbacks ran at %v, want [0s 50ms 80ms]", firedAt)
+		}
+		mu.Unlock()
+	})
+	w.K.Advance(200 * time.Millisecond)
+	if done != 7 {
+		bad("self-test goroutines finished: %d of 7", done)
 	}
 	w.Stats["judged:SIMSELF"]++
 }
